@@ -451,30 +451,15 @@ class AtLeast(puan.Proposition):
                     # Checks if any edge exists more than once
                     # E.g. A has two edges to x, meaning two x's are siblings
                     # which don't make any sense
-                    maz.compose(
-                        any,
-                        functools.partial(
-                            map,
-                            lambda i: i >= 2,
-                        ),
-                        dict.values,
-                        Counter,
-                        itertools.chain.from_iterable,
-                        functools.partial(
-                            map, 
-                            lambda x: list(
-                                map(
-                                    lambda y: f"{x.id}-{y.id}",
-                                    x.propositions
-                                )
-                            )
-                        ),
-                        functools.partial(
-                            filter,
-                            lambda x: not issubclass(x.__class__, puan.variable)
-                        ),
-                        operator.methodcaller("flatten")
-                    )
+                    lambda model: any(
+                        map(
+                            lambda x: len(set(map(operator.attrgetter("id"), x.propositions))) < len(x.propositions),
+                            filter(
+                                lambda x: not issubclass(x.__class__, puan.variable),
+                                model._occurrences(),
+                            ),
+                        )
+                    ),
                 )
             )(self)
         )
